@@ -182,31 +182,40 @@ pub fn c08_w_k_retry_unlimited() {
 
 // ---- Delay ----------------------------------------------------------------------------------------------
 // C08: back-off is non-decreasing and bounded by `max`.
-// Bound: whole-millisecond durations below 2^32 ms (~49 days) — `bounded` uses 1 ms/500 ms and 700 ms/10 s.
+// Bound: whole-millisecond durations below 256 s — `bounded` uses 1 ms/500 ms and 700 ms/10 s. (Full-range
+// `Duration` arithmetic is 64-bit multiply/divide by 10^9: CBMC did not finish u32 milliseconds in 12 min.)
 
 fn ms(x: u32) -> Duration {
     Duration::from_millis(x as u64)
 }
 
+/// symbolic whole-millisecond duration < 256 s, built without division
+fn any_ms_duration() -> Duration {
+    let s: u8 = kani::any();
+    let m: u16 = kani::any();
+    kani::assume(m < 1000);
+    Duration::new(s as u64, m as u32 * 1_000_000)
+}
+
 fn delay_step(twin: u8) {
-    let (cur, step, max): (u32, u32, u32) = (kani::any(), kani::any(), kani::any());
+    let (cur, step, max) = (any_ms_duration(), any_ms_duration(), any_ms_duration());
     // representation invariant of Delay between calls: current <= max
     kani::assume(cur <= max);
-    let mut d = v::VDelay::from_parts(ms(cur), ms(step), ms(max));
+    let mut d = v::VDelay::from_parts(cur, step, max);
     let n = d.next();
     if twin == 1 {
-        assert!(n > ms(cur), "TWIN (false): back-off grows strictly for ever");
+        assert!(n > cur, "TWIN (false): back-off grows strictly for ever");
     }
-    assert!(n >= ms(cur), "back-off never decreases");
-    assert!(n <= ms(max), "back-off is bounded by max");
-    assert!(d.parts() == (n, ms(step), ms(max)), "the returned delay is the new current; step and max untouched");
-    let exact = (cur as u64) * 2 + step as u64;
-    assert!(n == if exact < max as u64 { Duration::from_millis(exact) } else { ms(max) }, "min(2*current+step, max)");
+    assert!(n >= cur, "back-off never decreases");
+    assert!(n <= max, "back-off is bounded by max");
+    assert!(d.parts() == (n, step, max), "the returned delay is the new current; step and max untouched");
+    let exact = cur + cur + step;
+    assert!(n == if exact < max { exact } else { max }, "min(2*current+step, max)");
     d.reset();
-    assert!(d.parts() == (Duration::ZERO, ms(step), ms(max)), "reset restarts the back-off");
-    kani::cover!(n == ms(max) && cur < max, "reaches the cap");
-    kani::cover!(n < ms(max) && cur > 0, "below the cap");
-    kani::cover!(cur == max && max > 0, "stays at the cap");
+    assert!(d.parts() == (Duration::ZERO, step, max), "reset restarts the back-off");
+    kani::cover!(n == max && cur < max, "reaches the cap");
+    kani::cover!(n < max && cur > Duration::ZERO, "below the cap");
+    kani::cover!(cur == max && max > Duration::ZERO, "stays at the cap");
 }
 
 #[kani::proof]
